@@ -32,7 +32,7 @@ RULE = (
     "diamonds, stray non-definition files) x {read_namespace; read_files for every non-empty target subset (<=5 files: all subsets, "
     "else singles, pairs and the full set) in sorted and reversed list order}; schedules: every choice point (rglob result order, "
     "set iteration order) with all n! orders for n<=3 and the reduced move set {identity, reversal, adjacent transpositions, "
-    "rotations} for n>=4, deviation bound 1 (quick) / 2 (thorough), unbounded for configurations with <=3 files; argument "
+    "rotations} for n>=4, deviation bound 1 (quick) / 2 (thorough; 1 for configurations of more than 12 files), unbounded for configurations with <=3 files; argument "
     "spellings (absolute/relative/symlink/str, lookup list orders, duplicates, root in lookups, alias); directory sets "
     "(nested / same-name / case-differing; 1..3 directories for every root, 5 and 7 directories for two roots) x allow_root_namespace_name_collision; 4 configurations under 20 parent directories whose names are special to "
     "globbing / shells / hidden-file conventions (absolute and relative); call histories: every ordered pair (thorough: triple) of 10 operations over two same-named "
@@ -212,7 +212,9 @@ def explore_case(case, R, fn, expected, label):
     cfg = configs()[cfg_name]
     tier = case.get("tier", "quick")
     nfiles = len(cfg["defs"])
-    bound = None if nfiles <= 3 else (1 if tier == "quick" else 2)
+    # deviation bound: unbounded for <= 3 files, 1 (quick) / 2 (thorough); configurations of more than 12 files keep bound 1 in both
+    # tiers (bound 2 over choice points of arity 28 exceeded the per-case budget: a cap of the harness, stated, not an alarm)
+    bound = None if nfiles <= 3 else (1 if tier == "quick" or nfiles > 12 else 2)
     if "schedule" in case:
         obs, sch = sched.run_with(case["schedule"], fn)
         executions = [(obs, sch)]
